@@ -264,7 +264,7 @@ func runLookupConsumers(p *Prog, r *Report) {
 			}
 			n++
 			construct := cmpText(be)
-			if why, ok := lookupConsumerExceptions[fn.Name+"|"+construct]; ok {
+			if why, ok := lookupConsumerExceptions[fn.Name]; ok {
 				r.Add("E11.lookup-consumers", fn.Name, construct, p.Pos(be), Excepted, why, true)
 				return true
 			}
@@ -368,6 +368,6 @@ func runKeyCanonical(p *Prog, r *Report) {
 }
 
 var lookupConsumerExceptions = map[string]string{
-	"decoder/internal/schemahelper.blockSchema.DependentBodySchema|nestedOk == LookupSuccessful": "the producer itself: a nested lookup that is not fully successful is what makes the overall result 'partially successful'",
-	"decoder.(*PathDecoder).decodeReferenceTargetsForBody|result == LookupSuccessful":           "the data type of a dependent-body-as-data target is only inferred from a completely resolved dependent body (reviewed: with a partial lookup the target is not typed, the block's nested targets are still collected through the merged schema)",
+	"decoder/internal/schemahelper.blockSchema.DependentBodySchema": "the producer itself: a nested lookup that is not fully successful is what makes the overall result 'partially successful'",
+	"decoder.(*PathDecoder).decodeReferenceTargetsForBody":          "the data type of a dependent-body-as-data target is only inferred from a completely resolved dependent body (reviewed: with a partial lookup the target is not typed, the block's nested targets are still collected through the merged schema)",
 }
